@@ -107,14 +107,29 @@ func init() {
 	}})
 
 	// the same patterns through the real supervisors (fake process, virtual clock)
+	type c09cfg struct {
+		typ      SupervisorType
+		strategy SupervisorStrategy
+		nchild   int
+	}
+	var c09cfgs []c09cfg
 	for _, typ := range []SupervisorType{SupervisorTypeOneForOne, SupervisorTypeAllForOne, SupervisorTypeRestForOne, SupervisorTypeSimpleOneForOne} {
-		typ := typ
-		cfg := c08cfg{typ: typ, strategy: SupervisorStrategyPermanent, signif: -1, nchild: 2}
+		c09cfgs = append(c09cfgs, c09cfg{typ, SupervisorStrategyPermanent, 2}, c09cfg{typ, SupervisorStrategyTransient, 3})
+	}
+	for _, cc := range c09cfgs {
+		cc := cc
+		typ := cc.typ
+		cfg := c08cfg{typ: typ, strategy: cc.strategy, signif: -1, nchild: cc.nchild}
 		harn.Register(harn.Scenario{Property: "C09", Name: "supervisor-" + cfg.name(), Run: func(c *harn.Ctx) *harn.Result {
 			r := harn.NewResult("opseq")
 			distinct := map[string]bool{}
 			for intensity := 1; intensity <= 3; intensity++ {
-				for _, victim := range []int{0, 1} {
+				// under the transient strategy some children first end normally: those terminations
+				// are not restarts and must not count
+				for _, victim := range []int{0, 1, 10, 20} {
+					if victim >= 10 && cc.strategy != SupervisorStrategyTransient {
+						continue
+					}
 					period := 1
 					gaps := []int64{0, 500, 999, 1001, 2000}
 					maxLen := intensity + 2
@@ -163,6 +178,8 @@ func countWithin(times []int64, period int) int {
 
 // c09RunSupervisor crashes the victim child once per gap; returns true if the supervisor gave up
 func c09RunSupervisor(r *harn.Result, cfg c08cfg, intensity, period, victim int, gaps []int64, seq []int) (gaveUp bool) {
+	normalExits := victim / 10 // 10 => child c ends normally first, 20 => b and c
+	victim = victim % 10
 	vsched.RunOnce(10, func(ex *vsched.Exec) string {
 		spec := cfg.spec()
 		spec.Restart.Intensity = uint16(intensity)
@@ -170,8 +187,28 @@ func c09RunSupervisor(r *harn.Result, cfg c08cfg, intensity, period, victim int,
 		st := newSys(spec)
 		st.run()
 		if cfg.typ == SupervisorTypeSimpleOneForOne {
-			st.guard(func() { st.s.StartChild("a"); st.s.StartChild("b") })
+			st.guard(func() {
+				for i := 0; i < cfg.nchild; i++ {
+					st.s.StartChild(specNames[i])
+				}
+			})
 			st.run()
+		}
+		down := map[int]bool{}
+		for k := 0; k < normalExits; k++ {
+			i := cfg.nchild - 1 - k
+			pids := st.f.liveOf(specNames[i])
+			if len(pids) != 1 {
+				r.Fail("child-not-restarted", "%s: child %s is not running at the start", cfg.name(), specNames[i])
+				return ""
+			}
+			st.f.die(pids[0], gen.TerminateReasonNormal)
+			st.run()
+			down[i] = true
+			if st.ended != nil {
+				r.Fail("gave-up-too-early", "%s, intensity %d: the supervisor terminated (%v) after a child ended NORMALLY", cfg.name(), intensity, st.ended)
+				return ""
+			}
 		}
 		base := ex.Now
 		var times []int64
@@ -226,6 +263,9 @@ func c09RunSupervisor(r *harn.Result, cfg c08cfg, intensity, period, victim int,
 			}
 			// at or below the limit: everything is running again
 			for i := 0; i < cfg.nchild; i++ {
+				if down[i] && cfg.typ != SupervisorTypeAllForOne && !(cfg.typ == SupervisorTypeRestForOne && i > victim) {
+					continue // ended normally earlier and outside the restart scope: stays down
+				}
 				if len(st.f.liveOf(specNames[i])) != 1 {
 					r.Fail("child-not-restarted", "%s: after failure #%d child %s has %d instances", desc(), k+1, specNames[i], len(st.f.liveOf(specNames[i])))
 					return ""
